@@ -10,6 +10,18 @@ COMMON_NOTE = ("Trusted base: TLC 1.8 evaluating the TLA+ specification in /veri
                "assumption of DESIGN 2.5 for the exhaustive part; simulated / random traces go beyond it.")
 
 CHECKS = {
+ "C05": dict(engine="Ownership", design="3/C05",
+   text=("Ownership.tla models objects as owners of buffers with Call / in-place / no-copy-constructor / Poke actions; "
+         "TLC shows on a 4-handle model that pokes stay local under admissible calls and that the property fails as "
+         "soon as a view-returning call is admitted (sanity mutant of the specification).  TLC enumerates every chain "
+         "of type-compatible operations (depth 2, 3 in the thorough tier) from the harness's operation table (~190 "
+         "operation/class pairs: all seven classes, helper functions taking caller arrays, the five algorithm entry "
+         "points).  Each chain is executed; after every call the bytes of every array reachable from every live "
+         "object are compared and the result is tested (overlap + demonstrated poke) against all live objects; TLC "
+         "validates the recorded (changed, aliased) observations against Ownership_Trace."),
+   technique="TLA+ ownership state machine; TLC chain generation from a typed operation table; byte-snapshot / poke observations; TLC trace validation",
+   note=("Open known findings: gcp_opt normalizes the caller's init (pinned by upstream tests), sumtensor + shares parts. "
+         "Trusted base: operation table and snapshot/poke oracle in harness/c05.py, numpy.shares_memory, TLC.")),
  "C04": dict(engine="ArrayHistory", design="3/C04",
    text=("ArrayHistory.tla is a state machine over one abstract growable F-ordered array: region / subscript / linear "
          "writes (with growth in size and order) and the corresponding reads.  TLC checks on it the frame property "
